@@ -42,6 +42,17 @@ pub enum Gap {
     Yield(u32),
     SleepMs(u64),
     AdvanceMs(u64),
+    /// wait until a background task of the server produces lock-trace event `what`
+    /// (`controller::TRIGGERS`), for at most `max_ms` of simulated time, then act at once: the
+    /// step lands right after a snapshot / inside a critical section instead of at a blind offset
+    /// `hold`: the task that produced the event is held back (long stall) at its next `hold` lock
+    /// acquisitions - a worker thread descheduled right after the event
+    Until {
+        what: usize,
+        max_ms: u64,
+        #[serde(default)]
+        hold: u32,
+    },
 }
 
 #[derive(Serialize, Deserialize, Clone, Debug, PartialEq)]
@@ -201,6 +212,9 @@ pub struct Profile {
     pub timer_races: bool,
     /// .emmyrc.json rewrites may exclude / re-include the `deep/` documents
     pub membership_flips: bool,
+    /// chance (per 1000) that a step waits for a lock-trace event of a background task instead of
+    /// a blind gap (`Gap::Until`); the burst / timer-race generators use it more often
+    pub trace_triggers: u32,
 }
 
 const LOCKY_METHODS: &[&str] = &[
@@ -253,6 +267,7 @@ pub fn profile(prop: &str) -> Profile {
         reload_bursts: false,
         timer_races: false,
         membership_flips: false,
+        trace_triggers: 40,
     };
     match prop {
         "C27" => base,
@@ -348,6 +363,9 @@ pub fn profile(prop: &str) -> Profile {
 }
 
 fn gen_gap(r: &mut Rng, p: &Profile, interval: u64) -> Gap {
+    if p.trace_triggers > 0 && r.below(1000) < p.trace_triggers as u64 {
+        return Gap::Until { what: r.usize_below(crate::controller::TRIGGERS.len()), max_ms: *r.pick(&[20, 600, 2500]), hold: *r.pick(&[0, 0, 1, 2, 3]) };
+    }
     match r.weighted(&p.g) {
         0 => Gap::Zero,
         1 => Gap::Yield(r.range(1, 6) as u32),
@@ -479,7 +497,8 @@ pub fn generate(prop: &str, seed: u64) -> RunSpec {
                 script.push(Step { gap: Gap::Yield(r.range(1, 4) as u32), action: Action::Change { doc: d, text: doc_text(d, ver[d], r.below(p.flavours) as u32) } });
             }
             let base = if emmyrc { 2000u64 } else { 0 };
-            let gap = match r.below(7) {
+            let gap = match r.below(9) {
+                7 | 8 => Gap::Until { what: *r.pick(&[0, 0, 1, 2, 3, 10]), max_ms: base + 3000, hold: *r.pick(&[0, 1, 2, 3]) },
                 0 => Gap::SleepMs(base + 1),
                 1 => Gap::SleepMs(base + r.range(2, 40)),
                 2 => Gap::SleepMs(base + r.range(40, 300)),
@@ -654,7 +673,10 @@ pub fn generate(prop: &str, seed: u64) -> RunSpec {
                     ver[d] += 1;
                     Action::Change { doc: d, text: doc_text(d, ver[d], r.below(p.flavours) as u32) }
                 };
-                script.push(Step { gap: Gap::SleepMs(at), action });
+                // a third of the races wait for the debounced task itself (it fires, takes the token
+                // table, waits for / releases the analysis read lock) instead of the wall-clock offset
+                let gap = if r.chance(1, 3) { Gap::Until { what: *r.pick(&[8, 9, 11]), max_ms: interval + 50, hold: *r.pick(&[0, 1, 2]) } } else { Gap::SleepMs(at) };
+                script.push(Step { gap, action });
                 if r.chance(1, 2) {
                     frozen[d] = true;
                 }
@@ -693,7 +715,8 @@ pub fn generate(prop: &str, seed: u64) -> RunSpec {
                 };
                 let gap = if first {
                     first = false;
-                    match r.below(6) {
+                    match r.below(9) {
+                        6 | 7 | 8 => Gap::Until { what: *r.pick(&[0, 0, 1, 2, 3, 10]), max_ms: base + 3000, hold: *r.pick(&[0, 1, 2, 3]) },
                         0 => Gap::SleepMs(base.saturating_sub(1).max(1)),
                         1 => Gap::SleepMs(base + 1),
                         2 => Gap::SleepMs(base + r.range(1, 60)),
@@ -702,10 +725,11 @@ pub fn generate(prop: &str, seed: u64) -> RunSpec {
                         _ => if base == 0 { Gap::Yield(r.range(1, 8) as u32) } else { Gap::SleepMs(base) },
                     }
                 } else {
-                    match r.below(4) {
+                    match r.below(5) {
                         0 => Gap::Zero,
                         1 => Gap::Yield(r.range(1, 6) as u32),
                         2 => Gap::SleepMs(r.range(1, 60)),
+                        3 => Gap::Until { what: *r.pick(&[0, 1, 2, 3, 10]), max_ms: 1500, hold: *r.pick(&[0, 1, 2]) },
                         _ => Gap::SleepMs(r.range(100, 1500)),
                     }
                 };
